@@ -1,0 +1,43 @@
+//go:build verif
+
+package ecs
+
+// Contracts for graph.go (C01: "the table is found by the resulting mask only"): the archetype
+// graph caches transitions between component sets. graphInv says that every node knows its own
+// index, that node masks are pairwise different, and that every cached edge of a node over a
+// component c leads to the node whose mask differs from it in exactly c. Find/FindAdd/FindRemove
+// return the node whose mask is the out-mask, which is the start mask minus the removed plus the
+// added components, and they keep graphInv (a wrong cached edge would send a later operation to
+// the wrong component set).
+
+//@ spec func maskFlip(a bitMask, b bitMask, c uint8) bool :=
+//@   forall i uint8 :: mhas(b, i) == (mhas(a, i) != (i == c))
+
+//@ pred graphInv(g *graph) :=
+//@      uint64(len(g.nodes)) < 1<<32 && len(g.nodes) > 0
+//@   && (forall n int :: __trigger(g.nodes[n].id) && (0 <= n && n < len(g.nodes) ==> int(g.nodes[n].id) == n && idMapInv(&g.nodes[n].neighbors)))
+//@   && (forall n int, m int :: __trigger(g.nodes[n].mask) && __trigger(g.nodes[m].mask) && (0 <= n && n < m && m < len(g.nodes) ==> g.nodes[n].mask != g.nodes[m].mask))
+//@   && (forall n int, c uint8 :: __trigger(g.nodes[n].neighbors.data[c]) && (0 <= n && n < len(g.nodes) && mhas(g.nodes[n].neighbors.used, c) ==>
+//@         int(g.nodes[n].neighbors.data[c]) < len(g.nodes) && maskFlip(g.nodes[n].mask, g.nodes[g.nodes[n].neighbors.data[c]].mask, c)))
+
+//@ func (*graph).findOrCreate
+//@   serves C01
+//@   requires graphInv(g) && mask != nil && uint64(len(g.nodes)) < 1<<32 - 1
+//@   loop 1 invariant none: forall k int :: 0 <= k && k < __idx ==> g.nodes[k].mask != *mask
+//@   ensures  inv: graphInv(g)
+//@   ensures  found: result != nil && int(result.id) < len(g.nodes) && __same(result, &g.nodes[result.id]) && result.mask == *mask
+//@   ensures  grown: len(g.nodes) >= old(len(g.nodes)) && (forall n int :: __trigger(g.nodes[n].mask) && (0 <= n && n < old(len(g.nodes)) ==> g.nodes[n].mask == old(g.nodes[n].mask) && g.nodes[n].id == old(g.nodes[n].id)))
+//@   ensures  fresh-node: int(result.id) >= old(len(g.nodes)) ==> (forall c uint8 :: !mhas(result.neighbors.used, c))
+//@   ensures  edges: forall n int, c uint8 :: __trigger(g.nodes[n].neighbors.data[c]) && (0 <= n && n < old(len(g.nodes)) ==> mhas(g.nodes[n].neighbors.used, c) == old(mhas(g.nodes[n].neighbors.used, c)) && (mhas(g.nodes[n].neighbors.used, c) ==> g.nodes[n].neighbors.data[c] == old(g.nodes[n].neighbors.data[c])))
+//@   ensures  stale: forall n int :: 0 <= n && n < old(len(g.nodes)) ==> old(&g.nodes[n]).id == old(g.nodes[n].id) && old(&g.nodes[n]).mask == old(g.nodes[n].mask)
+//@   modifies g.nodes
+
+//@ func (*graph).FindRemove
+//@   serves C01 C10
+//@   maypanic
+//@   requires graphInv(g) && outMask != nil && int(start) < len(g.nodes) && *outMask == g.nodes[start].mask && uint64(len(g.nodes)) + uint64(len(remove)) < 1<<32 - 1
+//@   loop 1 invariant inv: graphInv(g) && uint64(len(g.nodes)) + uint64(len(remove)) - uint64(__idx) < 1<<32 - 1
+//@   loop 1 invariant at: curr != nil && int(curr.id) < len(g.nodes) && __same(curr, &g.nodes[curr.id]) && curr.mask == *outMask
+//@   ensures  inv: graphInv(g)
+//@   ensures  node: result != nil && int(result.id) < len(g.nodes) && __same(result, &g.nodes[result.id]) && result.mask == *outMask
+//@   ensures  removed: forall k int :: 0 <= k && k < len(remove) ==> !mhas(*outMask, remove[k].id)
